@@ -29,8 +29,9 @@ func codecValue(r *core.Rand, unknowns bool) cty.Value {
 }
 
 // exponents of four or more digits are clamped: a number like 1e999999999 decodes fine but makes every
-// later decimal rendering (GoString, hashing, the model's equality) take minutes
-var reHugeExp = regexp.MustCompile(`([eE][+-]?)[0-9]{3,}`)
+// later decimal rendering (GoString, hashing, the model's equality) take minutes; big.Float.Parse (and so msgpack number strings and
+// JSON strings converted to numbers) also accepts a BINARY exponent written with p / P ("27p564327421"), so those are clamped too
+var reHugeExp = regexp.MustCompile(`([eEpP][+-]?)[0-9]{3,}`)
 
 var jsonTokens = []string{"null", "true", "false", "0", "-0", "1e300", "1.5", `""`, "\"\u00e9\"", "\"e\u0301\"", "[]", "{}", `{"a":null}`, `[null]`, `"1"`, `"true"`, ",", ":", "[", "]", "{", "}"}
 
